@@ -25,6 +25,7 @@ type Op struct {
 	Extends bool   // conj/concat/splice style growth of Parent
 	View    bool   // subvec/rest/seq/vec/with-meta style view of Parent
 	Call    bool   // closure: calling it returns a value that must stay the same
+	Same    string `json:",omitempty"` // closure: what it returns is the value bound to this name (captured before a nested let bound the name again)
 }
 
 type Case struct {
@@ -148,7 +149,7 @@ func (g *hg) literal() Op {
 func (g *hg) step() Op {
 	seqKinds := []string{"list", "vec"}
 	for tries := 0; tries < 6; tries++ {
-		switch c := gen.Uniform(g.t, "op", 34); {
+		switch c := gen.Uniform(g.t, "op", 35); {
 		case c == 0:
 			return g.literal()
 		case c <= 3:
@@ -340,6 +341,24 @@ func (g *hg) step() Op {
 				}
 				return Op{Expr: "(let (c " + p + ") (fn () (do (conj c 1) c)))", Kind: "closure", Call: true}
 			}
+		case c == 33: // a closure over a binding that a nested let in tail position binds again to a derived value
+			if p, ok := g.parent("list", "vec", "map"); ok {
+				grow := "(conj c :more)"
+				if g.kindOf(p) == "map" {
+					grow = "(assoc c :more 1)"
+				}
+				inner := "(let (c " + grow + ") (do (count c) snap))"
+				switch g.pick("tlvia", 3) {
+				case 1:
+					inner = "(do 1 " + inner + ")"
+				case 2:
+					inner = "(if true " + inner + " nil)"
+				}
+				if g.pick("tlfn", 3) == 0 {
+					return Op{Expr: "((fn (c) (let (snap (fn () c)) " + inner + ")) " + p + ")", Kind: "closure", Call: true, Same: p}
+				}
+				return Op{Expr: "(let (c " + p + " snap (fn () c)) " + inner + ")", Kind: "closure", Call: true, Same: p}
+			}
 		case c == 31: // reduce with conj: many extensions in a row
 			if p, ok := g.parent(seqKinds...); ok {
 				if q, ok := g.parent(seqKinds...); ok {
@@ -435,6 +454,13 @@ func check(c Case) pbt.Verdict {
 				if cr.Err == nil && !cr.Panicked {
 					s.call = true
 					s.v = val.From(cr.Val)
+					if o.Same != "" {
+						for _, prev := range snaps {
+							if prev.name == o.Same && !prev.call {
+								s.v = prev.v // what the closure captured
+							}
+						}
+					}
 					snaps = append(snaps, s)
 				}
 			} else {
